@@ -20,6 +20,14 @@ def op_key(op):
     return None
 
 
+def fresh_str(s):
+    """A new str object with the same value: callers' texts come and go, so an
+    identity-keyed cache inside the library must meet re-used addresses."""
+    if s is None or len(s) < 2:
+        return s
+    return (s + " ")[:-1]
+
+
 def h1_call(op, clean_steps):
     from eyecite import get_citations
 
@@ -27,12 +35,12 @@ def h1_call(op, clean_steps):
     if op.get("ra"):
         kw["remove_ambiguous"] = True
     if op.get("markup") is not None:
-        kw["markup_text"] = op["markup"]
+        kw["markup_text"] = fresh_str(op["markup"])
     if clean_steps is not None:
         kw["clean_steps"] = clean_steps
     if op.get("markup") is not None and not op.get("text"):
         return get_citations(**kw)
-    return get_citations(op.get("text", ""), **kw)
+    return get_citations(fresh_str(op.get("text", "")), **kw)
 
 
 def special_indices():
@@ -66,7 +74,7 @@ def eval_judged(op):
             from eyecite import get_citations
 
             tok, _ = h2_tokenizer(op)
-            res = get_citations(op.get("text", ""), tokenizer=tok)
+            res = get_citations(fresh_str(op.get("text", "")), tokenizer=tok)
         return ser.citations(res), res
     except Exception as e:  # the function's value at this argument is "raises E"
         return ("raised", type(e).__name__), None
